@@ -69,9 +69,57 @@ func propGenuineHTTP(t *rapid.T) {
 	w.TakeFlags()
 	n := rapid.IntRange(2, 5).Draw(t, "followups")
 	for i := 0; i < n; i++ {
-		how := rapid.SampledFrom([]string{"same_outputs_amount_changed", "same_outputs_secret_changed", "same_outputs_other_C", "same_outputs_unknown_keyset", "same_outputs_forged", "same_outputs_spare_proof", "same_inputs_new_outputs", "same_outputs_C_upper_case"}).Draw(t, "followup")
+		how := rapid.SampledFrom([]string{"same_outputs_amount_changed", "same_outputs_secret_changed", "same_outputs_other_C", "same_outputs_unknown_keyset", "same_outputs_forged", "same_outputs_spare_proof", "same_inputs_new_outputs", "same_outputs_C_upper_case", "omitted_members_after_refused_request", "omitted_members_after_refused_request"}).Draw(t, "followup")
 		p := honest.P
 		useMsgs := msgs
+		if how == "omitted_members_after_refused_request" {
+			// a request with a genuine unspent proof is refused for its outputs (they ask for one unit too much); the next
+			// request names no proof at all - its input objects leave members out - and asks for that proof's value
+			var gen *world.MProof
+			for _, c := range perm[1:] {
+				if c.State == world.Unspent && c.P.Amount > w.FeeFor(cashu.Proofs{c.P}) {
+					gen = c
+					break
+				}
+			}
+			if gen == nil {
+				continue
+			}
+			gfee := w.FeeFor(cashu.Proofs{gen.P})
+			over := world.Msgs(w.MakeOutputs(world.Split(gen.P.Amount-gfee+1), w.ActiveID))
+			if st, body := post(cashu.Proofs{gen.P}, over); st == 200 {
+				t.Fatalf("VIOLATION C04|http|swap_for_more_than_the_inputs_accepted: %.200s", body)
+			}
+			fresh := world.Msgs(w.MakeOutputs(world.Split(gen.P.Amount-gfee), w.ActiveID))
+			outsJSON, _ := json.Marshal(fresh)
+			shape := rapid.SampledFrom([]string{`{}`, `{"amount":%d}`, `{"amount":%d,"id":"%s"}`, `{"secret":"%s"}`}).Draw(t, "omitted_shape")
+			in := shape
+			switch strings.Count(shape, "%") {
+			case 1:
+				if strings.Contains(shape, "secret") {
+					in = fmt.Sprintf(shape, gen.P.Secret)
+				} else {
+					in = fmt.Sprintf(shape, gen.P.Amount)
+				}
+			case 2:
+				in = fmt.Sprintf(shape, gen.P.Amount, gen.P.Id)
+			}
+			raw := []byte(`{"inputs":[` + in + `],"outputs":` + string(outsJSON) + `}`)
+			r := httpx.Do(w.Handler(), "POST", "/v1/swap", raw, "application/json")
+			rec.Eval()
+			rec.Class("http_followup=" + how)
+			rec.NonTrivial(fmt.Sprintf("http|%s|%s|%d", how, shape, cfg.FeePpk))
+			if r.Panic != nil {
+				t.Fatalf("VIOLATION C04|http|panic: %v", r.Panic)
+			}
+			if r.Status == 200 {
+				t.Fatalf("VIOLATION C04|http|input_with_omitted_members_accepted: after a refused swap of proof {amount %d secret %.16s} the request %.300s was answered 200 %.200s", gen.P.Amount, gen.P.Secret, raw, r.Body)
+			}
+			if sts, err := w.Mint.ProofsStateCheck([]string{gen.Y}); err != nil || len(sts) != 1 || sts[0].State.String() != "UNSPENT" {
+				t.Fatalf("VIOLATION C04|http|refused_genuine_proof_changed_state: %v %v", sts, err)
+			}
+			continue
+		}
 		switch how {
 		case "same_outputs_amount_changed":
 			p.Amount *= 2
